@@ -194,6 +194,29 @@ static void run_case(Src &s) {
         W::go(rec.root, special);
         if (special) st.label("tree:key-with-0x00-or-0x80+");
     }
+    // --- one object over a history: serialize, N modifications (N around powers of two), serialize again
+    if (rec.ok && (c.doc.size() % 8) == 3) {
+        static const unsigned counts[] = {1, 2, 255, 256, 257, 65535, 65536, 65537};
+        unsigned N = counts[s.u8() % 8];
+        Binson h;
+        h.deserialize(c.doc.data(), c.doc.size());
+        std::vector<uint8_t> first = h.serialize();
+        if (first != c.doc) VH_FAIL("C15/history/first-serialize", "serialize() after deserialize differs; %s", what.c_str());
+        for (unsigned i = 0; i < N; i++) h.put("k", BinsonValue((int64_t)i));
+        Value want = rec.root;
+        {
+            Value kv; kv.k = ref::K_INT; kv.i = (int64_t)N - 1; kv.has_name = true; kv.name = Bytes{'k'};
+            bool placed = false;
+            for (auto &f : want.c) if (f.name == kv.name) { f = kv; placed = true; }
+            if (!placed) {
+                want.c.push_back(kv);
+                std::sort(want.c.begin(), want.c.end(), [](const Value &a, const Value &b) { return ref::cmp_bytes(a.name, b.name) < 0; });
+            }
+        }
+        std::vector<uint8_t> second = h.serialize();
+        if (second != ref::encode(want)) VH_FAIL(fmt("C15/history/serialize-after-%u-puts", N), "serialize() after %u further put() calls does not reflect the object: got %s; %s", N, ref::hex(second, 120).c_str(), what.c_str());
+        st.label("history:serialize-modify-serialize");
+    }
     const char *cl = rec.ok ? "valid" : "invalid";
     if (st.want_sample(cl, 2)) st.sample(cl, what.substr(0, 300));
 }
